@@ -72,6 +72,15 @@ Proof. exact L_write_total. Qed.
 Theorem from_bytes_total : forall input, from_bytes input <> Panic /\ from_bytes input <> OutOfFuel.
 Proof. exact L_from_bytes_total. Qed.
 
+(* to_bstring() ("writes infallibly into memory") is write_to plus expect(): it returns the
+   encoding when every present value is clean and PANICS otherwise — it never returns a forged
+   message, but it is not infallible *)
+Theorem to_bstring_ok_or_panic : forall c,
+  (forallb (fun p => clean (snd p)) (present c) = true -> to_bstring c = Ok (encode (present c))) /\
+  (forallb (fun p => clean (snd p)) (present c) = false -> to_bstring c = Panic) /\
+  to_bstring c <> OutOfFuel /\ (forall e, to_bstring c <> Err e).
+Proof. exact L_to_bstring. Qed.
+
 (* the other direction: whatever from_bytes accepts (from any input at all, e.g. a helper's
    answer) is a context that write_to accepts, and it survives being sent on and read again *)
 Theorem read_write_read : forall input c, from_bytes input = Ok c ->
@@ -122,3 +131,8 @@ Proof. reflexivity. Qed.
 
 Example sep_ok_instances : sep_ok is_lf /\ sep_ok is_cr_or_lf.
 Proof. split; [exact is_lf_ok | exact is_cr_or_lf_ok]. Qed.
+
+Example to_bstring_panics_example :
+  to_bstring (mk_ctx None None None None (Some [LF]) None None) = Panic /\
+  to_bstring ex_ctx = Ok (fst (write_to ex_ctx)).
+Proof. split; reflexivity. Qed.
